@@ -1190,4 +1190,16 @@ theorem for_images_frame_to_total_matrix_image {ds : ImageDs} {tf : TiledFull} {
       ∀ x y : Rat, a.apply ⟨x, y, 0⟩ = ⟨(((tc : Int) * tf.cols : Int) : Rat) + x, (((tr : Int) * tf.rows : Int) : Rat) + y, 0⟩ :=
   forImages_frame_to_total_image h hP hn u hu ch tr tc hch hpl htr htc
 
+
+/-- `create_rotation_matrix`: element 0 of `pixel_spacing` is the spacing between ROWS and element 1 the spacing between COLUMNS, a
+scalar serves both, and non-positive values are refused - indices and test regenerated (TC10g: `Gen.rotationSpacingIndex`,
+`Gen.rotationSpacingRefused`; the scaling `c * s` over `zip(rotation_columns, spacings)` and `np.column_stack` pinned).  With the T13o tables
+(which letter takes which spacing) this closes the hand-written part of `createRotation`. -/
+theorem tie_rotation_spacings (o : Ori) (conv : List Char) (sf rh : Bool) (ps : Spacing) (sbs : Rat) :
+    createRotation o conv sf rh ps sbs = createRotationSrc o conv sf rh ps sbs :=
+  createRotation_uses_source o conv sf rh ps sbs
+
+example : (createRotationSrc exPlane.o ['D', 'R'] true false (.seq [1 / 2, 3 / 4]) 2).isOk = true ∧
+    createRotationSrc exPlane.o ['D', 'R'] true false (.seq [1 / 2, 0]) 2 = .error .value := by decide +kernel
+
 end HdVerif.C10
